@@ -78,6 +78,19 @@ func (s *c14Scn) putatt(d *c14Doc, leaf *c14Rev, name string, content int) *c14R
 	return s.do(&c14Op{Kind: "putatt", Doc: d, Parent: leaf, Name: name, Content: content})
 }
 
+// raced: a push onto leaf whose compare-and-swap is lost to len(racers) concurrent acknowledged pushes (see makeRaced).
+func (s *c14Scn) raced(d *c14Doc, leaf *c14Rev, racers []map[string]c14Action, own map[string]c14Action) *c14Rev {
+	if leaf == nil {
+		return nil
+	}
+	op := &c14Op{Kind: "update-ne", Doc: d, Parent: leaf}
+	s.h.makeRaced(op, len(racers), racers[0], own)
+	for j := 1; j < len(racers); j++ {
+		op.Racers[j].Actions = racers[j]
+	}
+	return s.do(op)
+}
+
 const (
 	c14Low  = "0000000000000000" // loses every comparison of revision digests of equal generation
 	c14High = "ffffffffffffffff" // wins it (server-made digests are MD5 hex)
@@ -154,6 +167,19 @@ func TestVerif_C14_Scenarios(t *testing.T) {
 			w := s.push(d, r1, c14High, c14Inline("c", 2))
 			s.tombstone(d, r2)
 			s.update(d, w, c14Inline())
+		}},
+		{"concurrent-push-adds-attachment-that-the-retried-push-supersedes", func(s *c14Scn, d, o *c14Doc) {
+			r1 := s.create(d, c14Inline("a", 0))
+			s.raced(d, r1, []map[string]c14Action{c14Inline("a", "keep", "b", 1)}, c14Inline())
+		}},
+		{"concurrent-push-adds-attachment-and-the-retried-push-carries-the-same-content-under-another-name", func(s *c14Scn, d, o *c14Doc) {
+			r1 := s.create(d, c14Inline("a", 0))
+			s.raced(d, r1, []map[string]c14Action{c14Inline("a", "keep", "b", 1)}, c14Inline("z", 1))
+		}},
+		{"two-concurrent-pushes-replace-attachments-before-the-retried-push-drops-them", func(s *c14Scn, d, o *c14Doc) {
+			r1 := s.create(d, c14Inline("a", 0))
+			r2 := s.update(d, r1, c14Inline("a", "keep"))
+			s.raced(d, r2, []map[string]c14Action{c14Inline("a", 1), c14Inline("a", 2, "b", 0)}, c14Inline())
 		}},
 		{"same-content-in-two-documents-one-drops-it", func(s *c14Scn, d, o *c14Doc) {
 			r1 := s.create(d, c14Inline("a", 0))
